@@ -435,6 +435,7 @@ func check(c Case) error {
 				res = codon.ParseCodonJSON(b)
 			} else {
 				p := filepath.Join(vk.WorkDir(), "table.json")
+				vk.StaleFile(p, 40000)
 				codon.WriteCodonJSON(h.real, p)
 				res = codon.ReadCodonJSON(p)
 				_ = os.Remove(p)
